@@ -61,6 +61,15 @@ def r1_snapshot_protocol(report, repo):
                'the state snapshot is evaluated before the event is '
                'registered: an update between the two is neither in the '
                'snapshot nor signalled (lost update)')
+  for sn, sc_ in snaps:
+    report.check(
+        'self._lock' not in core.held_withs(sc_), rule, f.qualname,
+        'snapshot-outside-lock', sc_,
+        'the snapshot is evaluated after the subscription lock was released',
+        '_asdict() is evaluated while holding the subscription lock: an '
+        '_asdict() that takes the object\'s own lock (UserInput._cond) while '
+        'an updater holds that lock and calls notify_update() deadlocks '
+        'watcher and updater (lock-order inversion)')
   ev = dotted(ac.args[0]) if ac.args else None
   defs = lib.resolve_local(f, ev) if ev else []
   ok = len(defs) == 1 and call_name(defs[0]) == 'threading.Event'
@@ -244,6 +253,19 @@ def r3_changes_notify(report, repo):
   ok = ok and any(call_name(c_) == 'functools.partial' and
                   dotted(c_.args[0]) == 'self._notify'
                   for c_ in core.calls_in(pi.node))
+  gp = lib.cfg(pn)
+  marks = [n_ for n_, c_ in lib.nodes_with_call(
+      gp, name='self._update_measurements.add')]
+  nts = [n_ for n_, c_ in lib.nodes_with_call(
+      gp, name='self.test_state.notify_update')]
+  report.check(
+      bool(marks) and bool(nts) and all(
+          gp.dominated_by(x, lambda y: any(y is m for m in marks))
+          for x in nts), rule, pn.qualname, 'mark-before-notify', pn.node,
+      'the measurement is marked dirty before watchers are notified',
+      'watchers are notified before the measurement is marked dirty: a '
+      'watcher woken in the gap re-subscribes and snapshots the stale '
+      'rendering, and no further notification follows')
   report.check(ok, rule, 'measurement-chain', 'set->notify', c.node,
                'measurement assignment -> notify_value_set -> '
                '_notification_cb -> PhaseState._notify -> '
